@@ -128,7 +128,7 @@ def gen_cmds(tier, rng):
         cmds.append(("bt", tps, rng.random() < 0.7, evs))
     return cmds
 
-def to_script(case): return [fmt(c) for c in case]
+def to_script(case): return common.case_script(case) if isinstance(case, dict) else [fmt(c) for c in case]
 
 EXTRA_PROPERTY_FILES = ("Properties_timestamp", "Properties_builder")   # obligations over the regenerated Gen_timestamp.v (translator/timestamp.py): the four Timestamp functions translated from the source
 def run(ctx):
@@ -147,11 +147,33 @@ def run(ctx):
         why = oracle_line(c, il[0] if il else "<none>")
         if why: fails.append((cid, case, why, il))
         if il != ml: diffs.append((cid, case, "impl %r vs model %r" % (il[:1], ml[:1])))
+    # whole files at other tick rates than the default: records with times buffered into an exporter whose parameter set 0 (and a second set,
+    # switched to) has 1, 2, 1000, 1000001 or 10^9 ticks per second, written, read back with CdnsReader - every record time must come back
+    # exactly (the reader has to pick the tick rate of the block's parameter set, whichever way the block refers to it)
+    import schema, histgen, p_hist
+    sch = schema.load(ctx["mdl"])
+    hc = []
+    for i in range(16 if tier == "quick" else 600):
+        tps, tps2 = rng.choice([1, 2, 1000, 1000001, 10 ** 9]), rng.choice([1, 1000, 10 ** 6, 10 ** 9])
+        full = (histgen.ALL_QR_BITS, histgen.ALL_SIG_BITS, 3, 3)
+        pre = [1, 0, None, [histgen.gen_bp(sch, rng, masks=full, tps=tps, maxi=rng.choice([2, 10000])), histgen.gen_bp(sch, rng, masks=full, tps=tps2, maxi=10000)]]
+        base = rng.choice([0, 5, 1600000000])
+        rec = lambda t: ("qr", None, histgen.gen_gqr(rng, t, base, full=True)) if rng.random() < 0.7 else ("mm", None, histgen.gen_gmm(rng, t, base, full=True))
+        ops = [rec(tps) for _ in range(rng.choice([2, 3, 6]))] + [("wb",)]
+        if i % 2: ops += [("setbp", 1), ("wb",)] + [rec(tps2) for _ in range(rng.choice([2, 4]))] + [("wb",)]
+        hc.append(p_hist.mk_case(sch, "h%d" % i, {"pre": pre, "ops": ops}, "file-round-trip/%d-ticks-per-second" % tps))
+    hd, hc = p_hist.run_histories(ctx, hc, batch=8)
+    diffs += hd
+    for c in hc:
+        kinds[c["meta"]["kind"]] = kinds.get(c["meta"]["kind"], 0) + 1
+        if c["oracle"]: fails.append((c["id"], c, "a file written at this tick rate does not read back as buffered: %s" % c["oracle"][0][1], c.get("impl_tail", [])))
+    cases = cases + hc
     rep.cov["evaluations"] = len(cases)
-    rep.cov["distinct_nontrivial"] = len(distinct)
+    rep.cov["distinct_nontrivial"] = len(distinct) + len(hc)
     rep.cov["rule"] = ("exhaustive grid (rate<=4, secs/ticks<=4, offsets -25..25 and INT64_MIN/MAX); boundary instants (0, 1, 2^31, 2^32, 2^63/rate) x boundary "
                        "offsets (INT64_MIN, -instant-1, -instant, 2^63-1-instant, INT64_MAX) x rates {1,2,10^3,10^6,10^9,prime}; random in-range; a separate "
-                       "out-of-precondition stream (correspondence only); block histories with timed/untimed/unstored records in random arrival order. "
+                       "out-of-precondition stream (correspondence only); block histories with timed/untimed/unstored records in random arrival order; whole files "
+                       "written by the exporter at 1, 2, 1000, 1000001 and 10^9 ticks per second (parameter set 0 and a second set switched to) and read back with CdnsReader. "
                        "distinct = distinct commands; all are compared exactly (value, exception class, state after a refusal)")
     rep.cov["distribution"] = kinds
     rep.cov["samples"] = [fmt(cmds[0]), fmt(cmds[len(cmds) // 2]), fmt(cmds[-1])]
